@@ -10,7 +10,7 @@ Prints one line per change and a summary.  Editing aid; no registered check uses
 import json, os, subprocess, sys, shutil
 from concurrent.futures import ThreadPoolExecutor
 
-V = "/verif"
+V = os.path.dirname(os.path.abspath(__file__))
 ALL = ["C%02d" % i for i in range(1, 20)]
 
 
